@@ -277,4 +277,7 @@ pub fn run(ctx: &mut Ctx) {
     }
     out.flush().unwrap();
     ctx.notes.push(format!("engine cases written to {path}"));
+    // the same builder through the Lean schema-statement model (SQLite dialect)
+    let k = if ctx.tier_thorough { 30000 } else { 3000 };
+    crate::ddl::run_stream(ctx, &[crate::reflex::B::Sqlite], k);
 }
